@@ -188,7 +188,7 @@ def fans(ctx, nested):
 PINS_Q, PINS_T = (0, 1000, 57000000), (0, 1, 1000, 57000000, 10**8)
 
 
-@harness("C19.battery", quick=[dict(full_pin=f, power_pin=p) for f in PINS_Q for p in (0, 7, 12000000)], thorough=[dict(full_pin=f, power_pin=p) for f in PINS_T for p in (0, 1, 7, 12000000, 10**8)])
+@harness("C19.battery", quick=[dict(full_pin=f, power_pin=p) for f in PINS_Q for p in (0, 7, 12000000, -7)], thorough=[dict(full_pin=f, power_pin=p) for f in PINS_T for p in (0, 1, 7, 12000000, 10**8, -7, -12000000)])
 def battery(ctx, full_pin, power_pin):
     k = simk.Kernel(ctx)
     bat = ctx.choice("batname", ["BAT0", "BAT1", "cw2015-battery"])
@@ -225,6 +225,50 @@ def battery(ctx, full_pin, power_pin):
         ctx.prove(r.secsleft == psutil.POWER_TIME_UNKNOWN, "battery-secs-unknown")
     else:
         ctx.prove(ctx.eq(r.secsleft, ctx.trunc(ctx.div(now * 3600, power_pin))), "battery-secsleft")
+
+
+@harness("C19.battery_tte")
+def battery_tte(ctx):
+    """a battery that exposes neither energy/charge nor power/current files but `capacity` (percent) and `time_to_empty_now` (minutes,
+    -1 when unknown): percent = capacity, seconds left = minutes*60, UNKNOWN for a negative value, UNLIMITED on mains"""
+    k = simk.Kernel(ctx)
+    root = "/sys/class/power_supply/BAT0"
+    k.dirs["/sys/class/power_supply"] = ["BAT0"]
+    cap = ctx.int("capacity", 0, 100)
+    k.files[root + "/capacity"] = k.num(cap) + b"\n"
+    tte = ctx.choice("time_to_empty_now", [None, "-1", "0", "90", "sym"])
+    mins = ctx.int("minutes", 0, 10**5)
+    if tte is not None:
+        k.files[root + "/time_to_empty_now"] = (k.num(mins) if tte == "sym" else tte.encode()) + b"\n"
+    status = ctx.choice("status", ["Discharging", "Charging", None])
+    if status is not None:
+        k.files[root + "/status"] = status + "\n"
+    with k.installed():
+        r = ctx.guard("battery-time-to-empty", psutil.sensors_battery)
+    ctx.prove(r is not None and ctx.eq(r.percent, cap), "battery-percent", detail=f"{r}")
+    if status == "Charging":
+        ctx.prove(r.secsleft == psutil.POWER_TIME_UNLIMITED, "battery-secs-unlimited")
+    elif tte in (None, "-1"):
+        ctx.prove(r.secsleft == psutil.POWER_TIME_UNKNOWN, "battery-secs-unknown", detail=f"time_to_empty_now={tte}: {r.secsleft}")
+    else:
+        ctx.prove(ctx.eq(r.secsleft, (mins if tte == "sym" else int(tte)) * 60), "battery-time-to-empty", detail=f"time_to_empty_now={tte}: {r.secsleft}")
+
+
+@harness("C19.boot_time_history")
+def boot_time_history(ctx):
+    """boot_time() mirrors the kernel's btime line at EVERY call: asked again after the line changed (a clock step, by any amount -- one
+    second included), it reports the new value"""
+    k = simk.Kernel(ctx)
+    b = [ctx.int("btime0", 0, 2**40), ctx.int("btime1", 0, 2**40), ctx.int("btime2", 0, 2**40)]
+    ctx.assume(ctx.any([ctx.eq(b[1], b[0] + 1), ctx.eq(b[1], b[0] - 1), ctx.eq(b[1], b[0]), ctx.eq(b[1], b[0] + 3600), b[1] > b[0] + 10**6]))
+    cur = {"i": 0}
+    k.files["/proc/stat"] = lambda: b"cpu  1 2 3 4 5 6 7 8 9 10\nintr 1\nctxt 2\nbtime " + k.num(b[cur["i"]]) + b"\nprocesses 3\n"
+    got = []
+    with k.installed():
+        for i in range(3):
+            cur["i"] = i
+            got.append(ctx.guard("boot_time", psutil.boot_time))
+    ctx.prove(ctx.all([ctx.eq(g, x) for g, x in zip(got, b)]), "boot_time", detail=f"{got}")
 
 
 @harness("C19.no_battery")
